@@ -446,8 +446,13 @@ Qed.
 Lemma do_relstop_inv1 c s i pd p f now : c_ordered c = true -> inv1 s -> inv1 (fst (do_relstop c s i pd p f now)).
 Proof. intros O I. rewrite do_relstop_fst. apply do_crash_inv1. apply relstop_pre_inv1; auto. Qed.
 
+(* the recorded finding "a failing checkpoint Delete is only logged" is excluded either by the repair or by the
+   history containing no failing Delete *)
+Definition delok (c : cfg) (o : op) : Prop :=
+  c_delretry c = true \/ match o with RelF _ => False | _ => True end.
+
 Lemma step_inv1 c s o s' out :
-  c_ordered c = true -> c_delretry c = true -> inv1 s -> step c s o = Some (s', out) -> inv1 s'.
+  c_ordered c = true -> delok c o -> inv1 s -> step c s o = Some (s', out) -> inv1 s'.
 Proof.
   intros O DR I H. destruct o; cbn [step] in H.
   - eapply do_new_inv1; eauto.
@@ -457,9 +462,19 @@ Proof.
   - inversion H. change s' with (fst (s', out)). rewrite <- H1. apply do_done_inv1; auto.
   - inversion H. change s' with (fst (s', out)). rewrite <- H1. apply do_poison_inv1; auto.
   - inversion H. change s' with (fst (s', out)). rewrite <- H1. apply do_cksf_inv1; auto.
-  - inversion H. change s' with (fst (s', out)). rewrite <- H1. apply do_relf_inv1; auto.
+  - inversion H. change s' with (fst (s', out)). rewrite <- H1. destruct DR as [DR|[]]. apply do_relf_inv1; auto.
   - inversion H. change s' with (fst (s', out)). rewrite <- H1. apply do_crash_inv1; auto.
   - inversion H. change s' with (fst (s', out)). rewrite <- H1. apply do_relstop_inv1; auto.
+Qed.
+
+Lemma run_inv_ok (P : st -> Prop) (okop : op -> Prop) c :
+  (forall s o s' out, okop o -> P s -> step c s o = Some (s', out) -> P s') ->
+  forall ops s s', Forall okop ops -> P s -> run c s ops = Some s' -> P s'.
+Proof.
+  intros HS. induction ops as [|o ops IH]; intros s s' F I H; cbn [run] in H.
+  - inversion H; subst; auto.
+  - destruct (step c s o) as [[s1 out]|] eqn:E; try discriminate. inversion F; subst.
+    apply (IH s1 s'); auto. apply (HS s o s1 out); auto.
 Qed.
 
 Lemma run_inv (P : st -> Prop) c :
@@ -481,7 +496,7 @@ Qed.
 
 (* T1 *)
 Lemma released_stay_gone c ops s :
-  c_ordered c = true -> c_delretry c = true -> run c init ops = Some s ->
+  c_ordered c = true -> Forall (delok c) ops -> run c init ops = Some s ->
   (forall i, In i (released s) -> aget i (live s) = None /\ aget i (store s) = None) /\
   (forall p f now i, In i (released s) ->
      let s' := fst (do_crash c s p f now) in
@@ -489,7 +504,7 @@ Lemma released_stay_gone c ops s :
 Proof.
   intros O DR R.
   assert (I : inv1 s).
-  { eapply (run_inv inv1 c); eauto using inv1_init. intros. eapply step_inv1; eauto. }
+  { eapply (run_inv_ok inv1 (delok c) c); eauto using inv1_init. intros. eapply step_inv1; eauto. }
   split.
   - intros i Hi. destruct (i_gone s I i Hi) as (A & B & _). auto.
   - intros p f now i Hi s'.
@@ -1227,7 +1242,7 @@ Proof.
 Qed.
 
 Lemma step_inv12 c s o s' out :
-  c_ordered c = true -> c_delretry c = true -> reserves c -> pools_small c ->
+  c_ordered c = true -> delok c o -> reserves c -> pools_small c ->
   inv1 s /\ inv2 c s -> step c s o = Some (s', out) -> inv1 s' /\ inv2 c s'.
 Proof.
   intros O DR RS PS (I1 & I2) H. split; [eapply step_inv1; eauto|].
@@ -1239,14 +1254,14 @@ Proof.
   - inversion H. change s' with (fst (s', out)). rewrite <- H1. apply do_done_inv2; auto.
   - inversion H. change s' with (fst (s', out)). rewrite <- H1. apply do_poison_inv2; auto.
   - inversion H. change s' with (fst (s', out)). rewrite <- H1. apply do_cksf_inv2; auto.
-  - inversion H. change s' with (fst (s', out)). rewrite <- H1. apply do_relf_inv2; auto.
+  - inversion H. change s' with (fst (s', out)). rewrite <- H1. destruct DR as [DR|[]]. apply do_relf_inv2; auto.
   - inversion H. change s' with (fst (s', out)). rewrite <- H1. apply do_crash_inv2; auto.
   - inversion H. change s' with (fst (s', out)). rewrite <- H1. apply do_relstop_inv2; auto.
 Qed.
 
 (* T3 in full *)
 Lemma reserved_before_alloc c ops s :
-  c_ordered c = true -> c_delretry c = true -> reserves c -> pools_small c -> run c init ops = Some s ->
+  c_ordered c = true -> Forall (delok c) ops -> reserves c -> pools_small c -> run c init ops = Some s ->
   (forall k r ad, aget k (live s) = Some r -> In ad (addrs r) -> inpool c ad = true ->
                   aget ad (leases s) = Some k) /\
   (forall fam a, fam < 3 -> alloc_ok c (leases s) fam (Some a) = true ->
@@ -1256,7 +1271,7 @@ Lemma reserved_before_alloc c ops s :
 Proof.
   intros O DR RS PS R.
   assert (I : inv1 s /\ inv2 c s).
-  { eapply (run_inv (fun s => inv1 s /\ inv2 c s) c); eauto.
+  { eapply (run_inv_ok (fun s => inv1 s /\ inv2 c s) (delok c) c); eauto.
     - intros. eapply step_inv12; eauto.
     - split; [apply inv1_init|apply inv2_init]. }
   destruct I as (I1 & I2). split; [|split].
